@@ -60,7 +60,7 @@ def dump_tables():
 def run_impl(cases, lang=False, threads=16):
     lines = []
     for c in cases:
-        d = {"id": c["id"], "tcs": c["tcs"], "f": c["f"], "mr": c.get("mr", 1), "ms": c.get("ms", 1), "lang": bool(c.get("lang", lang)), "thr_first": bool(c.get("thr_first", False)), "lang_anchor": bool(c.get("lang_anchor", False))}
+        d = {"id": c["id"], "tcs": c["tcs"], "f": c["f"], "mr": c.get("mr", 1), "ms": c.get("ms", 1), "lang": bool(c.get("lang", lang)), "thr_first": bool(c.get("thr_first", False)), "lang_anchor": bool(c.get("lang_anchor", False)), "esc_twice": bool(c.get("esc_twice", False))}
         lines.append(json.dumps(d))
     env = dict(os.environ, GREXV_THREADS=str(threads))
     rc, out, err = sh([GREXV, 'run'], inp=("\n".join(lines) + "\n").encode(), env=env, timeout=7200)
